@@ -147,6 +147,19 @@ func (e *Executor) traverse(rt RequestTask) (err error) {
 			// tell the loader we're online now
 			rt.ReconciledLoader.SetRemoteOnline(true)
 
+			// the request may have been cancelled while the local load above was in
+			// progress: the manager cancelled the context and set the loader offline
+			// before we set it online again, and nothing would take it offline a second
+			// time, so the retry below would wait for the remote forever (and the request
+			// would be sent after its own cancel). Cancellation happens before the
+			// manager's SetRemoteOnline(false), so checking after going online is race free.
+			select {
+			case <-rt.Ctx.Done():
+				rt.ReconciledLoader.SetRemoteOnline(false)
+				return ipldutil.ContextCancelError{}
+			default:
+			}
+
 			if err := e.startRemoteRequest(rt); err != nil {
 				return err
 			}
